@@ -3,6 +3,9 @@ From VLib Require Import CaseLib.
 From C02 Require Export Model ModelTx.
 Open Scope N_scope.
 
+(* the executable cases are evaluated with the glob / range matcher *)
+#[local] Existing Instance glob_matcher.
+
 Definition resl_eqb (a : res (list N)) (b : list N) : bool :=
   match a with Ok x => list_eqb N.eqb x b | OutOfFuel => false end.
 
